@@ -791,6 +791,67 @@ func runNilRet(c *Ctx, r *Reporter) {
 				}
 			}
 		}
+		// second source class: a field of a node built in this function into which nil (or a possibly-nil result) is
+		// stored on some path (`ret.T = nil` after a failed operand): every load of that field is possibly nil
+		type fieldKey struct {
+			a *ssa.Alloc
+			f int
+		}
+		nilField := map[fieldKey]string{}
+		for _, b := range fn.Blocks {
+			for _, ins := range b.Instrs {
+				st, ok := ins.(*ssa.Store)
+				if !ok {
+					continue
+				}
+				fa, ok := st.Addr.(*ssa.FieldAddr)
+				if !ok {
+					continue
+				}
+				a, ok := fa.X.(*ssa.Alloc)
+				if !ok {
+					continue
+				}
+				switch st.Val.Type().Underlying().(type) {
+				case *types.Pointer, *types.Interface:
+				default:
+					continue
+				}
+				if valueMayBeNil(st.Val, mayNil, map[ssa.Value]bool{}) {
+					_, name := fieldAddrInfo(fa)
+					nilField[fieldKey{a, fa.Field}] = name
+				}
+			}
+		}
+		m := 0
+		for _, b := range fn.Blocks {
+			for _, ins := range b.Instrs {
+				ld, ok := ins.(*ssa.UnOp)
+				if !ok || ld.Op != token.MUL {
+					continue
+				}
+				fa, ok := ld.X.(*ssa.FieldAddr)
+				if !ok {
+					continue
+				}
+				a, ok := fa.X.(*ssa.Alloc)
+				if !ok {
+					continue
+				}
+				name, ok := nilField[fieldKey{a, fa.Field}]
+				if !ok {
+					continue
+				}
+				m++
+				construct := fmt.Sprintf("%s#use-of-field[%d]:%s", ssaQName(fn), m, name)
+				bad := nilUseViolation(ld, derefs, map[ssa.Value]bool{})
+				if bad == nil {
+					r.Ok(construct, p.Rel(instrPos(ld)), "every dereference of the possibly-nil field is behind a non-nil test")
+				} else {
+					r.Viol(construct, p.Rel(instrPos(bad)), fmt.Sprintf("the field %s of the node built here is nil on a path (previous error) and is dereferenced by `%s` without a dominating non-nil test: a malformed program crashes the parser", name, bad.String()))
+				}
+			}
+		}
 	}
 }
 
@@ -893,7 +954,7 @@ func nonNilGuarded(use ssa.Instruction, v ssa.Value) bool {
 			continue
 		}
 		k, ok := bo.Y.(*ssa.Const)
-		if !ok || !k.IsNil() || !sameOrWraps(bo.X, v) {
+		if !ok || !k.IsNil() || !(sameOrWraps(bo.X, v) || sameFieldLoad(bo.X, v)) {
 			continue
 		}
 		nonNilEdge := 0
@@ -905,6 +966,18 @@ func nonNilGuarded(use ssa.Instruction, v ssa.Value) bool {
 		}
 	}
 	return false
+}
+
+// sameFieldLoad: two loads of the same field of the same local object.
+func sameFieldLoad(x, v ssa.Value) bool {
+	ux, ok1 := x.(*ssa.UnOp)
+	uv, ok2 := v.(*ssa.UnOp)
+	if !ok1 || !ok2 || ux.Op != token.MUL || uv.Op != token.MUL {
+		return false
+	}
+	fx, ok1 := ux.X.(*ssa.FieldAddr)
+	fv, ok2 := uv.X.(*ssa.FieldAddr)
+	return ok1 && ok2 && fx.Field == fv.Field && fx.X == fv.X
 }
 
 func sameOrWraps(x, v ssa.Value) bool {
